@@ -830,6 +830,7 @@ pub fn worker_loop<C>(a: &WorkerArgs, make: &(dyn Fn(u64) -> (C, usize, String, 
                     if a.one.is_none() && (t0.elapsed().as_secs_f64() >= deadline || cases >= max_cases) {
                         break;
                     }
+                    w.generating(idx);
                     let (case, len, label, digest) = make(idx);
                     w.begin_case(idx, len);
                     let o = run_monitored(len, || run(&case));
@@ -945,7 +946,57 @@ pub fn run(cfg: &RunCfg) -> (PropMeta, ShardOut, Map<String, Value>) {
     let mut extra = Map::new();
     extra.insert("run_seconds".into(), json!(sc.run_secs));
     extra.insert("workers".into(), json!(sc.workers));
-    (meta, res.out, extra)
+    let mut out = res.out;
+    if !cfg.quick() {
+        memcheck_stage(cfg, &mut out, &mut extra);
+    }
+    (meta, out, extra)
+}
+
+/// thorough tier: replay a slice of the workload under valgrind memcheck. lopdf forbids unsafe
+/// code, so this observes the unsafe code of its dependencies (nom/memchr, weezl, miniz_oxide,
+/// hashbrown, aes/sha2) as driven by lopdf on hostile inputs. An error whose stack has a lopdf
+/// frame is a violation; any other report is recorded as a note (inconclusive about lopdf).
+fn memcheck_stage(cfg: &RunCfg, out: &mut ShardOut, extra: &mut Map<String, Value>) {
+    let exe = std::env::current_exe().expect("exe");
+    let dir = cfg.verif_dir.join("work").join("C04");
+    let _ = std::fs::create_dir_all(&dir);
+    let log = dir.join("memcheck.log");
+    let wlog = dir.join("memcheck-worker.log");
+    let _ = std::fs::remove_file(&wlog);
+    let cases = 600;
+    let res = std::process::Command::new("timeout")
+        .arg("1200")
+        .args(["valgrind", "--tool=memcheck", "--error-exitcode=9", "--num-callers=40"])
+        .arg(format!("--log-file={}", log.display()))
+        .arg(&exe)
+        .args(["worker", "C04", "--seed", &cfg.seed.to_string(), "--shard", "77", "--from", "0", "--log"])
+        .arg(&wlog)
+        .env("VH_MAX_CASES", cases.to_string())
+        .env("VH_NO_RLIMIT", "1")
+        .env("RAYON_NUM_THREADS", "2")
+        .output();
+    match res {
+        Err(e) => out.inconclusive.push(format!("memcheck stage could not start: {}", e)),
+        Ok(o) => {
+            let text = std::fs::read_to_string(&log).unwrap_or_default();
+            let errors = text.lines().find(|l| l.contains("ERROR SUMMARY")).unwrap_or("").to_string();
+            let ran = std::fs::read_to_string(&wlog).unwrap_or_default().lines().filter_map(|l| serde_json::from_str::<Value>(l).ok()).filter(|v| v["t"] == "summary").map(|v| v["cases"].as_u64().unwrap_or(0)).sum::<u64>();
+            extra.insert("memcheck".into(), json!({"cases_replayed": ran, "summary": errors, "exit": o.status.code()}));
+            out.evaluations += ran;
+            if o.status.code() == Some(9) {
+                let with_lopdf = text.contains("lopdf::");
+                if with_lopdf {
+                    let first = text.lines().find(|l| l.contains("lopdf::")).unwrap_or("").to_string();
+                    out.finding(Finding { signature: "C04/memcheck".into(), what: format!("valgrind memcheck reported a memory error under a lopdf frame: {}", first), witness: json!({"kind":"memcheck","log_tail":text.chars().rev().take(4000).collect::<String>().chars().rev().collect::<String>()}) });
+                } else {
+                    out.counters.insert("memcheck_reports_without_lopdf_frame".into(), 1);
+                }
+            } else if ran < cases / 2 {
+                out.inconclusive.push(format!("memcheck stage replayed only {} cases (exit {:?})", ran, o.status.code()));
+            }
+        }
+    }
 }
 
 /// replay a self-contained witness in a child process under the same monitor
